@@ -19,6 +19,12 @@ impl Clone for Easing {
     { unimplemented!() }
 }
 
+/// `f32::clamp(t, 0.0, 1.0)`: an uninterpreted function of `t` (A4: std).
+pub uninterp spec fn spec_clamp(t: f32, lo: f32, hi: f32) -> f32;
+
+pub assume_specification[ f32::clamp ](t: f32, lo: f32, hi: f32) -> (r: f32)
+    ensures r == spec_clamp(t, lo, hi);
+
 /// Marker only: the extracted functions never call `lerp`.
 pub trait Lerp { }
 
